@@ -127,6 +127,7 @@ func init() {
 		"verif_ClockSet": func(e *Engine, fr *frame, a []Value) Value {
 			e.now = a[0].(*Term)
 			e.clockPinned = true
+			e.usedClock = true
 			return nil
 		},
 		"verif_ClockFree": func(e *Engine, fr *frame, a []Value) Value { e.clockPinned = false; return nil },
